@@ -23,30 +23,31 @@ import (
 
 // Atom is one effective guard.
 type Atom struct {
-	Callees  []string // resolved callee keys whose result feeds the leaf (sorted, deduplicated)
-	Shape    string   // normalised shape of the leaf when it is a comparison / plain boolean
-	Must     bool
-	InLit    bool
-	Tail     bool // `return f(...)` – callee's failure is returned unchanged
-	Pos      token.Pos
-	Leaf     ast.Expr        // the boolean leaf (nil for tail atoms)
-	FailTrue bool            // failure successor is taken when the leaf is true
-	Block    *cfg.Block      // block holding the condition
-	FailSucc *cfg.Block      // failure successor
-	OkSucc   *cfg.Block      // the other successor
-	Unit     *Unit           // analysis unit (function body or literal)
-	Calls    []*ast.CallExpr // the call expressions behind Callees (same order not guaranteed)
-	Via      string          // non-empty when inherited from an unexported helper
-	Conj     string          // shapes of sibling leaves that must hold jointly (conjunctive guard)
-	Skip     bool            // `if cond { continue }` filter inside a loop
-	ViaTags  []string        // blame tags attached by the caller's guard through which this atom was inherited
-	Substs   []paramSubst    // parameter substitutions of the inlining chain (innermost first)
-	CtxOuter string          // condition context of the call site(s) through which this atom was inherited
-	Outer    *Atom           // the caller's atom through which this atom was inherited
-	Wrapper  bool            // the condition of an `if A { <only failing checks> }` / `case c:` wrapper: a conjunct of those checks
-	PureSkip bool            // the filter's branch does nothing but skip the element (`if c { continue }`)
-	ShapeP   string          // Shape with the function's parameters kept as ⟦$i|<type>⟧ tokens
-	ConjP    string          // Conj likewise
+	Callees   []string // resolved callee keys whose result feeds the leaf (sorted, deduplicated)
+	Shape     string   // normalised shape of the leaf when it is a comparison / plain boolean
+	Must      bool
+	InLit     bool
+	Tail      bool // `return f(...)` – callee's failure is returned unchanged
+	Pos       token.Pos
+	Leaf      ast.Expr        // the boolean leaf (nil for tail atoms)
+	FailTrue  bool            // failure successor is taken when the leaf is true
+	Block     *cfg.Block      // block holding the condition
+	FailSucc  *cfg.Block      // failure successor
+	OkSucc    *cfg.Block      // the other successor
+	Unit      *Unit           // analysis unit (function body or literal)
+	Calls     []*ast.CallExpr // the call expressions behind Callees (same order not guaranteed)
+	Via       string          // non-empty when inherited from an unexported helper
+	Conj      string          // shapes of sibling leaves that must hold jointly (conjunctive guard)
+	Skip      bool            // `if cond { continue }` filter inside a loop
+	ViaTags   []string        // blame tags attached by the caller's guard through which this atom was inherited
+	Substs    []paramSubst    // parameter substitutions of the inlining chain (innermost first)
+	CtxOuter  string          // condition context of the call site(s) through which this atom was inherited
+	Outer     *Atom           // the caller's atom through which this atom was inherited
+	ExtraArgs []extraArg      // renderings of call-site calls whose result this (inherited) atom tests
+	Wrapper   bool            // the condition of an `if A { <only failing checks> }` / `case c:` wrapper: a conjunct of those checks
+	PureSkip  bool            // the filter's branch does nothing but skip the element (`if c { continue }`)
+	ShapeP    string          // Shape with the function's parameters kept as ⟦$i|<type>⟧ tokens
+	ConjP     string          // Conj likewise
 }
 
 // lastInLoopBody: the statement is the last one of the body of a for / range loop.
@@ -93,7 +94,7 @@ func (a *Atom) Sig() string {
 
 // Unit is one analysed body: a declared function or a function literal inside one.
 type Unit struct {
-	earlyWrappers map[*ast.IfStmt]bool // `if C { return ok }` merged into the checks that follow it
+	earlyWrappers map[*ast.IfStmt]bool      // `if C { return ok }` merged into the checks that follow it
 	foldedLits    map[*ast.FuncLit]bool     // predicate literals folded into the leaf of their element-predicate call
 	wrapperOfStmt map[ast.Node]*conjWrapper // statement -> the wrapper whose body it belongs to
 	wrapperList   []*conjWrapper
@@ -1983,6 +1984,9 @@ func (g *GuardEngine) flatAtoms(fd *FuncDecl, onPath map[*FuncDecl]bool, depth i
 						for _, rc := range calls {
 							if k := a.Unit.calleeKey(rc); k != "" && !containsStr(cp.Callees, k) {
 								cp.Callees = append(append([]string{}, cp.Callees...), k)
+								if txt := a.Unit.renderCall(rc); txt != "" {
+									cp.ExtraArgs = append(append([]extraArg{}, cp.ExtraArgs...), extraArg{text: txt, skip: len(cp.Substs)})
+								}
 							}
 						}
 					}
